@@ -1,7 +1,8 @@
 """C07 — wavefront views agree with each other and planes act as pointwise phasors.
 
-Tie: Gen/PlanePx.lean (`_mul_pixelscale`, four None-patterns) and Gen/Helper.lean (`slice_offset`) are regenerated from
-lentil/plane.py and lentil/helper.py; Model/Plane.lean + Model/PlaneMeta.lean (Plane.multiply loop, phasor construction,
+Tie: Gen/PlanePx.lean (`_mul_pixelscale`, four None-patterns), Gen/PlaneLoop.lean (the loop body of Plane.multiply at one
+sample: mask selection, amp/opd branches, phasor data, slice_offset arguments, append guard) and Gen/Helper.lean
+(`slice_offset`) are regenerated from lentil/plane.py and lentil/helper.py; Model/Plane.lean + Model/PlaneMeta.lean (Plane.multiply loop, phasor construction,
 boundary_slice, Wavefront.field/intensity/insert, metadata hand-over) are hand-written and compared here with the real
 lentil on two streams: `gi` (small integer amplitudes, OPD = k*lambda/4 so the phasor is a power of i: exact comparison
 after rounding the implementation's 1e-16 dust) and `cf` (generic floats, tolerance 1e-9*(1+|input|))."""
@@ -14,14 +15,14 @@ LEVEL_TEXT = ('Lean 4 theorems, for all shapes/offsets/data and any number of ov
               'amplitude*exp(2 pi i opd/lambda) inside the mask and by 0 outside, for scalar/array amplitude, OPD and mask in every '
               'combination (explicit Complex.exp for any segment list and for scalar masks); wavelength is handed over unchanged, the focal length passes through a plane unchanged when truthy and becomes inf when None/0 (generated Wavefront.__init__ rule), a Pupil hands over its focal length, along any chain of Plane/Pupil/Image steps the wavelength never changes and every phasor uses that wavelength (chain_keeps_wavelength), the plane with default attributes returns the very same wavefront (default_plane_changes_nothing; one-element fields: default_plane_identity), '
               '_mul_pixelscale (regenerated from plane.py on every run) refuses exactly the defined-and-different pairs, independently of the unit of length; the phase argument, the metadata hand-over of Plane/Pupil/Image.multiply and the wiring of the three views (which goes through reduce, intensity flag, weight) are regenerated from the source and consumed by the model; insert/intensity always return (C06 reduce_defined). The array plumbing '
-              'is a hand model checked against the implementation on exact and floating-point data.')
+              'is a hand model checked against the implementation on exact and floating-point data; its per-segment phasor is proved equal, sample by sample, to the loop body regenerated from plane.py:456-467 (Gen/PlaneLoop: loop_body_is_segPhasor, loop_mask_and_keep); Plane.shape, Plane.size and the ndim dispatch of _plane_slice are regenerated (Gen/PlaneGeom) and proved to give the model\'s shape, segment count and one bounding slice per layer for 0-d, 2-D and 3-D masks with any number of layers incl. one (plane_geometry_matches_model).')
 LEVEL_NOTE = ('Partial: (1) fields/segments with exactly one element are excluded by hypothesis (lentil treats every size-1 array as a '
               'broadcastable scalar; open known finding KF-C07-one-pixel-segment, which includes one-sample fields off centre under a default plane; not repaired because C06 as given makes a (1,1) array a broadcastable constant: the two properties conflict on that input and the code follows C06); '
               '(2) chains that interleave planes and propagations are covered step by step by theorems and as a whole by correspondence and oracle only; '
               '(3) views on shape-() / zero-dimensional data are oracle-only; (4) multiply overrides other than Plane/Pupil/Image/Tilt are not exercised. Trusted: Lean kernel, py2lean subset '
               'semantics, NumPy slicing/broadcast/exp semantics as modelled, generator coverage of the correspondence.')
 TECHNIQUE = 'Lean 4 proof (omega/induction/ring) over translator-regenerated kernels + hand model with differential correspondence'
-GEN = ['Extent', 'FieldDispatch', 'FieldIdx', 'FieldMerge', 'Helper', 'Helper20', 'Hex', 'Mesh', 'PlaneHandover', 'PlanePhase', 'PlanePx', 'PropagateMeta', 'TiltFit', 'Util', 'Window', 'WfViews', 'FieldAccum']
+GEN = ['Extent', 'FieldDispatch', 'FieldIdx', 'FieldMerge', 'Helper', 'Helper20', 'Hex', 'Mesh', 'PlaneHandover', 'PlanePhase', 'PlanePx', 'PropagateMeta', 'TiltFit', 'Util', 'Window', 'WfViews', 'FieldAccum', 'PlaneLoop', 'PlaneGeom']
 OPS = ['C07', 'C03']
 RULE = ('cases: chains of 1..4 planes on a fresh wavefront, the class drawn per plane among Plane, Pupil, Image, Tilt, Plane(ptype=pupil) within the '
         'admitted plane types, scalar/array amplitude, OPD and None/scalar/2-D/3-D mask in every combination (segments 1..5, overlapping boxes, '
@@ -29,17 +30,19 @@ RULE = ('cases: chains of 1..4 planes on a fresh wavefront, the class drawn per 
         'propagate_dft incl. single-sample windows -> image planes / Tilt -> optional second propagation -> optional pupil-type plane; Pupil focal lengths incl. None/0/inf in plain chains) with field and intensity compared after every element and insert at '
         'the end; wavefronts with 1..6 arbitrary overlapping fields; accumulation targets with prior content and weights; all _mul_pixelscale '
         'None-patterns; an extremes stream (physical units 1e-9..1e3, nanometre OPD maps, near-equal float pixel scales; 5 % of quick/thorough, half '
-        'of the failing-input search); oracle-only views on shape-() wavefronts, zero-dimensional fields and a single (1,1) field. '
+        'of the failing-input search); oracle-only views on shape-() wavefronts, zero-dimensional fields and a single (1,1) field; planes with an OFF-CENTRE mask box (monolithic 2-D / one-layer 3-D / 2..3 bands) that are rescaled (x0.5..3) or resampled before multiplying a fresh wavefront, judged against the rescaled plane\'s own public amplitude/opd/mask (oracle-only; 4 % of quick/thorough, 10 % of the failing-input search). '
         'distinct = canonical (mode, plane kinds, attribute kinds, shapes, boxes) signature; non-trivial = at least one array attribute or more than one field')
 TRUSTED = ['the constructor\'s mask normalisation (mask != 0, mask=None -> amplitude != 0) is applied by the harness (plane_mask_layers) before the model sees a plane; Plane.__init__ is pinned',
+           'the model\'s MaskM (.scalar / .segs s0 s1 layers) is built by the harness from mask.ndim and mask.shape; that Plane.shape / Plane.size / _plane_slice read a mask of that ndim/shape the same way is proved over the regenerated Gen/PlaneGeom (plane_geometry_matches_model); 1-D masks (ndim 1: Ellipsis slice, shape (n,)) are not generated',
            'NumPy casting in out[...] += ...: accumulation targets are float64 arrays',
-           'NumPy slicing/broadcasting of amplitude[s]*mask[s]*exp(2 pi i opd[s]/wavelength) and util.boundary (modelled by hand in Model/Plane.lean)',
+           'NumPy slicing and elementwise product/broadcast: the loop body of Plane.multiply (which attribute is sliced under which size test, the * mask[s] factor of both branches, amp*np.exp(..), slice_offset(s, self.shape), the res.size > 0 guard, the ndim < 3 mask selection) is regenerated into Gen/PlaneLoop.lean as its value at one sample of the slice and proved equal to the hand model segPhasor (loop_body_is_segPhasor, loop_mask_and_keep); that A[s] reads the samples of the slice and that * is elementwise is the trusted reading; util.boundary (first/last set row/column) is modelled by hand in Model/Plane.lean (bboxSlice), the clamping arithmetic of helper.boundary_slice on top of it is regenerated (Gen/Helper20, C03 segment_slices_are_boundary_slices)',
            'pixel scales are compared for equality only; the model carries them as integers',
            'np.exp(1j*t) = cos t + i sin t (Float model) ; |z**2| = re^2 + im^2 up to rounding']
 UNPROVEN = ['fields and segment phasors with exactly one element are outside the theorems (known finding KF-C07-one-pixel-segment)',
             'chains of planes AND propagations: each step is covered by a theorem (plane: plane_multiply_*; views after any step: intensity_eq_normSq_field, wavefront_insert_weight; '
             'chain of planes: C03 chain_distrib / chain_exp; propagation: C02/C03; a masked plane after a propagation: C03 plane_after_propagation), the interleaved chain as a whole by correspondence (c03.chain) and oracle only',
             'views on shape-() wavefronts and zero-dimensional / single (1,1) fields: oracle only (the array model has no 0-d data; C06 reduceZ covers the merge)',
+            'planes returned by Plane.rescale / Plane.resample (state carried over by the deep copy: _slice and anything cached next to it): oracle only (rescaled class; the interpolation itself is C17); skipped when rescale raises IndexError for a vanished layer or a rescaled segment has one element',
             'multiply overrides other than Plane/Pupil/Image/Tilt: DispersiveTilt/Grism (tilt bookkeeping, C04), LensletArray are not exercised; DispersiveAberration.multiply raises NotImplementedError; '
             'Rotate/Flip.multiply raise AttributeError (open known finding of C08)',
             'the plane-type admission test of Plane.multiply (C08) and tilt bookkeeping (C04) are not part of this model',
@@ -414,6 +417,37 @@ def gen_views0(rng):
     return {'kind': 'views0', 'sub': '1x1', 'val': [int(rng.integers(-3, 4)), int(rng.integers(-3, 4))], 'shape': list(shape),
             'off': [int(rng.integers(-3, 4)), int(rng.integers(-3, 4))], 'weight': int(rng.integers(-2, 4))}
 
+def gen_rescaled(rng):
+    """a plane whose mask sits OFF CENTRE (non-zero slice offset), monolithic or split into bands, that is rescaled / resampled
+    before it multiplies a fresh wavefront (oracle-only: judged against the rescaled plane's own public amplitude/opd/mask)"""
+    while True:
+        shape = (int(rng.integers(8, 17)), int(rng.integers(8, 17)))
+        h, w = int(rng.integers(3, shape[0] - 2)), int(rng.integers(3, shape[1] - 2))
+        r0, c0 = int(rng.integers(0, shape[0] - h + 1)), int(rng.integers(0, shape[1] - w + 1))
+        if slice_off((r0, r0 + h, c0, c0 + w), shape) == (0, 0): continue
+        M = np.zeros(shape, dtype=int); M[r0:r0 + h, c0:c0 + w] = 1
+        k = int(rng.integers(1, 4))
+        ax, n = (0, h) if rng.integers(0, 2) else (1, w)
+        if k > 1 and n < 3 * k: k = 1
+        layers = [M]
+        if k > 1:
+            cuts = [0] + sorted(int(x) for x in rng.choice(np.arange(3, n - 2), size=k - 1, replace=False)) + [n] if n - 5 >= k - 1 else None
+            if cuts is None or any(b - a < 3 for a, b in zip(cuts, cuts[1:])): k, cuts = 1, None
+            if cuts:
+                layers = []
+                for a, b in zip(cuts, cuts[1:]):
+                    L = np.zeros(shape, dtype=int)
+                    if ax == 0: L[r0 + a:r0 + b, c0:c0 + w] = 1
+                    else: L[r0:r0 + h, c0 + a:c0 + b] = 1
+                    layers.append(L)
+        ndim = 2 if (k == 1 and rng.integers(0, 2)) else 3
+        px = float(rng.choice([1.0, 0.5, 2.0]))
+        pl = {'kind': 'pupil' if rng.integers(0, 2) else 'plane', 'fl': 10.0, 'px': [px, px],
+              'amp': _attr(rng, 'cf', 'amp', shape, bool(rng.integers(0, 4) == 0)), 'opd': _attr(rng, 'cf', 'opd', shape, bool(rng.integers(0, 4) == 0)),
+              'mask': {'shape': [shape[0], shape[1]], 'ndim': ndim, 'layers': [[int(x) for x in L.ravel()] for L in layers]}}
+        return {'kind': 'rescaled', 'plane': pl, 'wavelength': 1.0, 'scale': float(rng.choice([2.0, 3.0, 1.5, 0.75, 0.5])),
+                'how': 'rescale' if rng.integers(0, 2) else 'resample', 'box': [r0, r0 + h, c0, c0 + w]}
+
 def gen_px(rng):
     def one():
         t = int(rng.integers(0, 3))
@@ -431,6 +465,8 @@ def generate(rng, tier):
             out.append(gen_pchain(rng)); continue
         if k % 25 == 3:
             out.append(gen_views0(rng)); continue
+        if k % 25 == 13 or (tier == 'search' and k % 10 == 5):
+            out.append(gen_rescaled(rng)); continue
         t = k % 10
         if t in (0, 1, 2, 3): out.append(gen_chain(rng, 'gi'))
         elif t in (4, 5): out.append(gen_chain(rng, 'cf'))
@@ -446,6 +482,9 @@ def _mkind(m): return 'none' if m is None else 'scalar' if 'scalar' in m else f"
 def signature(c):
     k = c['kind']
     if k == 'onefield': return 'onefield ' + json.dumps({x: y for x, y in c.items() if x != 'kind' and not x.startswith('_')}, sort_keys=True)
+    if k == 'rescaled':
+        p = c['plane']
+        return f"rescaled {c['how']} x{c['scale']} {p['kind']} amp:{_akind(p['amp'])} opd:{_akind(p['opd'])} mask:{_mkind(p['mask'])} {p['mask']['shape']} box={c['box']} px={p['px']}"
     if k == 'views0': return 'views0 ' + json.dumps({x: y for x, y in c.items() if x != 'kind'}, sort_keys=True)
     if k == 'pchain':
         return 'pchain ' + ' | '.join(('prop ' + str(e['shape']) + 'x' + str(e['os']) + ' ' + str(e['prop_shape'])) if e['kind'] == 'propagate' else
@@ -458,7 +497,7 @@ def signature(c):
 
 def nontrivial(c):
     k = c['kind']
-    if k == 'onefield': return True
+    if k in ('onefield', 'rescaled'): return True
     if k == 'views0': return c['sub'] != 'fresh' or c['ndefault'] > 0
     if k == 'pchain': return True
     if k == 'px': return c['a'] is not None or c['b'] is not None
@@ -476,6 +515,7 @@ def tags(c):
     t = [k]
     if k == 'onefield': return t + ['onefield:' + ('origin' if c['off'] == [0, 0] else 'off-centre')]
     if k == 'views0': return t + ['views0:' + c['sub']]
+    if k == 'rescaled': return t + ['rescaled:' + c['how'], 'rescaled:' + ('up' if c['scale'] > 1 else 'down'), f"rescaled:mask{_mkind(c['plane']['mask'])}"]
     if k == 'pchain':
         ks = [e['kind'] for e in c['elements']]
         t += [f"pchain:propagations={ks.count('propagate')}", f"pchain:image-planes={ks.count('image')}"]
@@ -610,8 +650,36 @@ def _run_onefield(c):
     w2 = w * (lentil.Image() if c['plane'] == 'image' else lentil.Tilt(x=0, y=0))
     return {'data': [fld_out(f, 'gi') for f in w2.data], 'shape': [int(x) for x in w2.shape]}
 
+def _run_rescaled(c):
+    """off-centre plane -> rescale / resample -> multiply a fresh wavefront; reference from the RESCALED plane's public attributes"""
+    lentil = vlib.import_lentil()
+    wl = c['wavelength']
+    P0 = build_plane(c['plane'], 'cf', wl)
+    try:
+        P2 = P0.rescale(c['scale']) if c['how'] == 'rescale' else P0.resample(P0.pixelscale[0] / c['scale'])
+    except IndexError:
+        return {'skipped': 'rescale raised IndexError: a layer vanished from the order-0 rescaled mask (C17, reported)'}
+    mask = np.asarray(P2.mask)
+    layers = mask[None] if mask.ndim == 2 else mask
+    if not all(_ok_layer(L != 0) for L in layers): return {'skipped': 'a rescaled segment has at most one element (KF-C07-one-pixel-segment)'}
+    w = lentil.Wavefront(wl) * P2
+    ref = sum(P2.amplitude * L * np.exp(2j * np.pi * P2.opd / wl) for L in layers)
+    f, I = np.asarray(w.field), np.asarray(w.intensity)
+    o = {'shape': [int(x) for x in f.shape], 'ref_shape': [int(x) for x in ref.shape], 'plane_shape': [int(x) for x in P2.shape],
+         'scale_': float(np.max(np.abs(ref))) if ref.size else 0.0, 'wavelength_same': bool(w.wavelength == wl), 'nfields': len(w.data), 'nlayers': int(len(layers))}
+    if f.shape == ref.shape:
+        o['err_f'] = float(np.max(np.abs(f - ref))); o['err_i'] = float(np.max(np.abs(I - np.abs(ref) ** 2)))
+        bad = np.argwhere(np.abs(f - ref) > 1e-9 * (1 + o['scale_']))
+        o['first_bad'] = [int(x) for x in bad[0]] if len(bad) else None
+    return o
+
 def impl(c):
     lentil = vlib.import_lentil()
+    if c['kind'] == 'rescaled':
+        try:
+            return _run_rescaled(c)
+        except (ValueError, IndexError, TypeError) as e:
+            return {'exc': type(e).__name__, 'msg': str(e)[:200]}
     if c['kind'] == 'onefield':
         try:
             return _run_onefield(c)
@@ -670,7 +738,7 @@ def arr_req(a, mode):
 
 def requests(c, io):
     k = c['kind']
-    if k in ('views0', 'onefield'): return []          # oracle-only
+    if k in ('views0', 'onefield', 'rescaled'): return []          # oracle-only
     if k == 'pchain':
         els = []
         for e in c['elements']:
@@ -761,7 +829,7 @@ def _field_box(fl):
     return (min(e[0] for e in es) - 1, max(e[1] for e in es) + 1, min(e[2] for e in es) - 1, max(e[3] for e in es) + 1)
 
 def compare(c, io, mo):
-    if c['kind'] in ('views0', 'onefield'): return None
+    if c['kind'] in ('views0', 'onefield', 'rescaled'): return None
     m = mo[0]
     k = c['kind']
     if 'exc' in io:
@@ -907,6 +975,18 @@ def oracle(c, io):
             return f"a plane with default attributes ({c['plane']}) changed a one-sample field at offset {c['off']}: {len(io['data'])} field(s) left"
         return None
     if k == 'views0': return _oracle_views0(c, io)
+    if k == 'rescaled':
+        if 'skipped' in io: return None
+        how = f"{c['how']}d (scale {c['scale']}) plane with its mask box {c['box']} off centre"
+        if 'exc' in io: return f"multiplying by a {how} raised {io['exc']}: {io.get('msg')}"
+        if io['shape'] != io['ref_shape'] or io['shape'] != io['plane_shape']: return f"{how}: field shape {io['shape']} is not the rescaled plane's shape {io['plane_shape']}"
+        tol = 1e-9 * (1 + io['scale_'])
+        if not io['err_f'] <= tol:
+            return (f"{how}: field is not amplitude * exp(2 pi i opd/lambda) of the rescaled plane inside its mask and 0 outside "
+                    f"(max error {io['err_f']:.3g}, first at {io['first_bad']}): the phasor sits at the wrong samples")
+        if not io['err_i'] <= tol * (1 + io['scale_']): return f"{how}: intensity is not |amplitude * mask|^2 of the rescaled plane (max error {io['err_i']:.3g})"
+        if not io['wavelength_same']: return f'{how}: wavelength changed'
+        return None
     if k == 'pchain': return _oracle_pchain(c, io)
     if k == 'px':
         a, b = c['a'], c['b']
@@ -975,7 +1055,7 @@ def oracle(c, io):
     return None
 
 def shrink(c):
-    if c['kind'] in ('pchain', 'views0', 'onefield'): return
+    if c['kind'] in ('pchain', 'views0', 'onefield', 'rescaled'): return
     if c['kind'] == 'chain':
         if len(c['planes']) > 1:
             for i in range(len(c['planes'])):
